@@ -9,6 +9,7 @@ import (
 	"fmt"
 	"os"
 	"sync"
+	"time"
 )
 
 type replay struct {
@@ -137,8 +138,35 @@ type endPath struct{}
 // IsEnd reports whether a recovered panic value is End()'s.
 func IsEnd(r any) bool { _, ok := r.(endPath); return ok }
 
-// Yield is an explicit preemption point.
+// Yield lets any enabled thread (including the caller) run next.
 func Yield() {}
+
+// Or, And, Implies are strict (both operands evaluated): under the engine
+// they build one formula instead of forking the path.
+func Or(a, b bool) bool      { return a || b }
+func And(a, b bool) bool     { return a && b }
+func Implies(a, b bool) bool { return !a || b }
+
+// IteU64/IteInt select without forking.
+func IteU64(c bool, a, b uint64) uint64 {
+	if c {
+		return a
+	}
+	return b
+}
+
+func IteInt(c bool, a, b int) int {
+	if c {
+		return a
+	}
+	return b
+}
+
+// Thorough reports whether the check runs in the thorough tier.
+func Thorough() bool { return os.Getenv("VERIF_TIER") == "thorough" }
+
+// RunOthers blocks the caller until every other thread is blocked or done.
+func RunOthers() { time.Sleep(50 * time.Millisecond) }
 
 // PermuteRange makes the next map range iterate in an arbitrary order.
 func PermuteRange() {}
